@@ -6,6 +6,8 @@
 #define VERIF_C11_ROUTES_H_
 #include <gudhi/ripser.h>
 #include <memory>
+#include <sys/wait.h>
+#include <sys/time.h>
 #include "c11_model.h"
 #include "c11_pipeline.h"
 #include "c11_guard.h"
@@ -167,6 +169,57 @@ bool check_route(Ctx<T>& x, const std::string& route, const std::string& variant
   return true;
 }
 
+// Same comparison, but the route runs in a forked child: used for the constructions whose question is memory safety
+// (a copy that outlives its original, the converting constructor of the upper layout).  A sanitizer report / crash of
+// the child becomes an ordinary violation record with a descriptive signature, the parent (and its counters) live on.
+template <class T, class F>
+bool check_route_isolated(Ctx<T>& x, const std::string& route, const std::string& variant, F&& f) {
+  vh::Case& c = x.c;
+  c.log("run (forked child) route=" + route + " ctor=" + variant);
+  c.count("route." + x.form + "." + route);
+  c.count("ctor." + x.form + "." + variant);
+  int fds[2];
+  if (pipe(fds) != 0) { c.count("skip.pipe_failed"); return true; }
+  fflush(stderr);
+  pid_t pid = fork();
+  if (pid < 0) { close(fds[0]); close(fds[1]); c.count("skip.fork_failed"); return true; }
+  if (pid == 0) {
+    close(fds[0]);
+    dup2(fds[1], 2);                       // sanitizer reports of the child go to the pipe
+    vh::G().cur_case = -1;                 // the fatal hooks of the child must not write into the parent's record file
+    struct itimerval it = {}; it.it_value.tv_sec = kCpuBudgetSeconds; signal(SIGVTALRM, SIG_DFL); setitimer(ITIMER_VIRTUAL, &it, nullptr);
+    int code = 0; std::string msg;
+    try {
+      Sink<T> s(x.dim_max);
+      f(s.od, s.op);
+      std::sort(s.out.begin(), s.out.end());
+      if (s.pair_before_dim || s.dim_out_of_range) { code = 4; msg = "protocol"; }
+      else { std::string dc = diff_class(s.out, x.exp.dgm); if (!dc.empty()) { code = 3; msg = dc + "\n ripser : " + oracle::show(s.out) + "\n oracle : " + oracle::show(x.exp.dgm); } }
+    } catch (const std::exception& e) { code = 5; msg = e.what(); }
+    ssize_t w = ::write(fds[1], msg.data(), msg.size()); (void)w;
+    _exit(code);
+  }
+  close(fds[1]);
+  std::string text; char buf[4096]; ssize_t got;
+  while ((got = ::read(fds[0], buf, sizeof buf)) > 0) if (text.size() < (1u << 16)) text.append(buf, (size_t)got);
+  close(fds[0]);
+  int st = 0; waitpid(pid, &st, 0);
+  c.count("cmp.intervals"); c.count("cmp.isolated");
+  if (WIFEXITED(st) && WEXITSTATUS(st) == 0) { x.routes_ok++; return true; }
+  std::string sig = base_sig(x, route, variant);
+  if (WIFEXITED(st) && WEXITSTATUS(st) == 3) { c.violation("ripser.intervals", sig + "," + text.substr(0, text.find('\n')) + ",isolated", text); return false; }
+  if (WIFEXITED(st) && WEXITSTATUS(st) == 4) { c.violation("ripser.protocol", sig + ",isolated", text); return false; }
+  if (WIFEXITED(st) && WEXITSTATUS(st) == 5) { c.violation("ripser.exception", sig + ",isolated", text); return false; }
+  const char* kinds[] = {"heap-use-after-free", "heap-buffer-overflow", "stack-buffer-overflow", "container-overflow", "store to null pointer",
+                         "load of null pointer", "null pointer", "SEGV", "Assertion", "signed integer overflow", "out of bounds"};
+  std::string kind = WIFSIGNALED(st) && WTERMSIG(st) == SIGVTALRM ? "cpu_budget_exceeded" : "other";
+  for (const char* k : kinds) if (text.find(k) != std::string::npos) { kind = k; break; }
+  for (char& ch : kind) if (ch == ' ') ch = '_';
+  c.violation("ripser.memory_safety", "form=" + x.form + ",ctor=" + variant + ",child_died," + kind,
+              "the forked child running this route died (" + (WIFSIGNALED(st) ? "signal " + vh::str(WTERMSIG(st)) : "exit " + vh::str(WEXITSTATUS(st))) + ")\n" + text.substr(0, 2500));
+  return false;
+}
+
 // the third opinion, once per case (small primes only: Field_Zp builds its inverse table in O(p^2))
 template <class T> bool run_pipeline(Ctx<T>& x, const Input& graph_in, double thr) {
   if (x.p > 13) { x.c.count("pipeline.skipped_big_prime"); return true; }
@@ -212,7 +265,7 @@ bool engine_routes(Ctx<T>& x, const std::string& variant, T thrT, bool big, bool
 // the copy is used after the object it was copied from has been destroyed (copies must be independent values)
 template <class T, class M, class Build>
 bool orphan_copy_route(Ctx<T>& x, T thrT, Build&& build) {
-  return check_route<T>(x, "direct", "copy_outlives_original", false, [&](DimCb<T>& od, PairCb<T>& op) {
+  return check_route_isolated<T>(x, "direct", "copy_outlives_original", [&](DimCb<T>& od, PairCb<T>& op) {
     std::unique_ptr<M> a(new M(build()));
     M b(*a);
     a.reset();
@@ -229,7 +282,7 @@ template <class T> struct FormFull {
     if (r.chance(1, 4)) {   // Full built from another adaptor
       if (!engine_routes<T, MFull<T>>(x, "from_lower", thrT, big, true, r, (int)r.below(R_COUNT), [&] { return MFull<T>(MLower<T>(lower_vector<T>(in))); })) return;
     }
-    if (r.chance(1, x.c.thorough ? 200u : 25u)) orphan_copy_route<T, MFull<T>>(x, thrT, [&] { return MFull<T>(SrcMat<T>{&in}); });
+    if (r.chance(1, 25)) orphan_copy_route<T, MFull<T>>(x, thrT, [&] { return MFull<T>(SrcMat<T>{&in}); });
   }
 };
 
@@ -245,7 +298,7 @@ template <class T> struct FormLower {
     if (r.chance(1, 3)) {   // what the command-line tool does with an upper-distance file
       if (!engine_routes<T, MLower<T>>(x, "from_upper", thrT, big, true, r, (int)r.below(R_COUNT), [&] { return MLower<T>(MUpper<T>(upper_vector<T>(in))); })) return;
     }
-    if (r.chance(1, x.c.thorough ? 200u : 25u)) orphan_copy_route<T, MLower<T>>(x, thrT, [&] { return MLower<T>(lower_vector<T>(in)); });
+    if (r.chance(1, 25)) orphan_copy_route<T, MLower<T>>(x, thrT, [&] { return MLower<T>(lower_vector<T>(in)); });
   }
 };
 
@@ -255,9 +308,12 @@ template <class T> struct FormUpper {
   static void routes(Ctx<T>& x, const Input& in, const Threshold& thr, vh::Rng& r, bool big) {
     T thrT = thr_value<T>(thr);
     if (!engine_routes<T, MUpper<T>>(x, "from_vector", thrT, big, true, r, -1, [&] { return MUpper<T>(upper_vector<T>(in)); })) return;
-    if (r.chance(1, x.c.thorough ? 200u : 25u)) { if (!orphan_copy_route<T, MUpper<T>>(x, thrT, [&] { return MUpper<T>(upper_vector<T>(in)); })) return; }
-    if (r.chance(1, x.c.thorough ? 200u : 25u)) {  // the converting constructor of the upper layout
-      engine_routes<T, MUpper<T>>(x, "from_matrix", thrT, big, true, r, (int)r.below(R_COUNT), [&] { return MUpper<T>(SrcMat<T>{&in}); });
+    if (r.chance(1, 25)) { if (!orphan_copy_route<T, MUpper<T>>(x, thrT, [&] { return MUpper<T>(upper_vector<T>(in)); })) return; }
+    if (r.chance(1, 25)) {  // the converting constructor of the upper layout
+      int rt = (int)r.below(2);   // ripser_auto or ripser (never refused)
+      check_route_isolated<T>(x, route_name(rt), "from_matrix", [&](DimCb<T>& od, PairCb<T>& op) {
+        call_engine<T, MUpper<T>>(MUpper<T>(SrcMat<T>{&in}), rt, x.dim_max, thrT, (unsigned)x.p, od, op);
+      });
     }
   }
 };
